@@ -48,6 +48,15 @@ def main():
             sh('git -C %s reset -q; git -C %s checkout -- .' % (REPO, REPO))
         ok = all(rc == 1 and v for (_, rc, v) in got)
         print('%-10s %s %s' % (i, 'caught' if ok else 'MISSED', ' '.join('%s(rc=%d%s)' % (c, rc, ', no-failing-input' if 'no-failing-input-found' in v else '') for c, rc, v in got)))
+        # record the latest re-run next to the original confirmation (seeded/<id>/run.json: key `recheck`)
+        try:
+            rj = os.path.join(d, 'run.json')
+            rec = json.load(open(rj)) if os.path.exists(rj) else {}
+            rec['recheck'] = dict(seed=os.environ.get('VERIF_SEED', '0'), result='caught' if ok else 'not caught',
+                                  checks=' '.join('%s(rc=%d%s)' % (c, rc, ', no-failing-input' if 'no-failing-input-found' in v else '') for c, rc, v in got))
+            json.dump(rec, open(rj, 'w'))
+        except Exception:  # noqa
+            pass
         if not ok:
             missed.append(i)
     print('missed:', missed)
